@@ -746,7 +746,22 @@ def _exec(w, pop, changed_ok):
             o = w.held.pop(i)
             if kind == "cycle_drop" and w.delay_gc and not any(x is o for x in w.held):
                 object.__setattr__(o, "_verif_cycle", o)     # keeps it alive until gc.collect()
+            # a plain vector the program has just let go of - held nowhere else, a column / an element of nothing it holds - is
+            # gone at once (reference counting): if it is still alive, something INSIDE the library holds it, and it goes on
+            # counting as a sharer of its storage although the program can no longer reach it
+            must_die = (kind == "drop" and isinstance(o, Vector) and not isinstance(o, Table)
+                        and not any(x is o for x in w.held)
+                        and not any(x is not o and any(c is o for c in x.__dict__.get("_underlying", ()))
+                                    for x in w.live().values())             # (live tables / nested vectors, held or awaiting collection)
+                        and not any(r is o for r, _ in w.held_rows) and "_verif_cycle" not in o.__dict__)
+            wr = weakref.ref(o) if must_die else None
+            h_o = w.handle_of(o, create=False)
             del o
+            if wr is not None and wr() is not None:
+                w.findings.append(f"C15-kept-alive: the vector h{h_o} was dropped by the program (nothing the program holds refers to "
+                                  f"it) but is still alive: the library itself keeps it, so it still counts as a sharer of its storage "
+                                  f"and writes to its former partners are refused until a garbage collection happens to run")
+            del wr
             op_term = "OCollect []"
         elif kind == "gc":
             gc.collect()
